@@ -395,6 +395,12 @@ def ctxSkipToOldRange : Nat → Parser → Int → Int → Parser × Int × Int
         (par', s', e')
       else ctxSkipToOldRange fuel par' s e
 
+/-- every line of the new half of a context hunk begins with "  ", "+ " or "! " -/
+def isToFileLine (l : Bytes) : Bool :=
+  match l with
+  | c0 :: c1 :: _ => (c0 == SP || c0 == PLUS || c0 == BANG) && c1 == SP
+  | _ => false
+
 /-- `Parser::parse_context_hunk` → (old_lines, old_start, new_lines, new_start, parser) -/
 def parseContextHunk (par : Parser) : Except Exn (List PatchLine × Int × List PatchLine × Int × Parser) :=
   let fuel := par.s.rest.length + 2
@@ -425,11 +431,15 @@ def parseContextHunk (par : Parser) : Except Exn (List PatchLine × Int × List 
           | .error e => .error e
           | .ok none => .error .runtimeError
           | .ok (some (ns, ne)) =>
+            let pos := par5.s.rest
             let (l3o, par6) := par5.getLine
             if par6.s.eof then .ok (oldLines', oldStart, [], ns, par6)
             else
               let l3 : Line := match l3o with | some l => l | none => ⟨[], .none⟩
               if startsWith l3.content "**********" then .ok (oldLines', oldStart, [], ns, par6)
+              else if !(isToFileLine l3.content) then
+                -- not a line of the new half: it is omitted as well; un-read the line
+                .ok (oldLines', oldStart, [], ns, { s := par6.s.seek pos, lineNo := par6.lineNo - 1 })
               else
                 match ctxAppendLine [] l3.content l3.newline with
                 | .error e => .error e
@@ -539,7 +549,12 @@ def parseNormalBody : Nat → Parser → List Hunk → Except Exn (List Hunk × 
           | .ok (olds, par2) =>
             let (ls1, par3) : List PatchLine × Parser :=
               if !olds.isEmpty ∧ par2.s.peek = BACKSLASH then (markLastNone olds, (par2.getLine).2) else (olds, par2)
-            let par4 := if par3.s.peek = MINUS then (par3.getLine).2 else par3
+            let par4 : Parser :=
+              if par3.s.peek = MINUS then
+                match par3.getLine with
+                | (some l, p') => if l.content = str "---" then p' else { s := p'.s.seek par3.s.rest, lineNo := p'.lineNo - 1 }
+                | (none, p') => { s := p'.s.seek par3.s.rest, lineNo := p'.lineNo - 1 }
+              else par3
             match normalReadSide f par4 h.new.count 62 PLUS ls1 with
             | .error e => .error e
             | .ok (ls2, par5) =>
